@@ -957,6 +957,89 @@ fn c03_value_stages__n6() {
 }
 static SIG_VARIANT: Signature = Signature::Variant;
 
+// ---- contract: deserialize_any (signature-driven dispatch: how a dynamically typed consumer such as Value reads) ----
+// requires signature = one fixed-size basic type
+// ensures  Ok  <=> a valid encoding of THAT type is present (padding zero, width bytes, bool in {0,1}) ;
+//          the visitor receives the visit_* call of exactly that type with the spec decoding ; pos advanced by pad + width
+// (a swapped arm -- `n` read as u16, `h` read as a plain i32 -- changes the tag or the value)
+struct RecVisitor;
+impl<'de> Visitor<'de> for RecVisitor {
+    type Value = (u8, u64);
+    fn expecting(&self, f: &mut core::fmt::Formatter<'_>) -> core::fmt::Result { f.write_str("any basic") }
+    fn visit_bool<E>(self, v: bool) -> core::result::Result<(u8, u64), E> { Ok((b'b', v as u64)) }
+    fn visit_u8<E>(self, v: u8) -> core::result::Result<(u8, u64), E> { Ok((b'y', v as u64)) }
+    fn visit_i16<E>(self, v: i16) -> core::result::Result<(u8, u64), E> { Ok((b'n', v as u16 as u64)) }
+    fn visit_u16<E>(self, v: u16) -> core::result::Result<(u8, u64), E> { Ok((b'q', v as u64)) }
+    fn visit_i32<E>(self, v: i32) -> core::result::Result<(u8, u64), E> { Ok((b'i', v as u32 as u64)) }
+    fn visit_u32<E>(self, v: u32) -> core::result::Result<(u8, u64), E> { Ok((b'u', v as u64)) }
+    fn visit_i64<E>(self, v: i64) -> core::result::Result<(u8, u64), E> { Ok((b'x', v as u64)) }
+    fn visit_u64<E>(self, v: u64) -> core::result::Result<(u8, u64), E> { Ok((b't', v)) }
+    fn visit_f64<E>(self, v: f64) -> core::result::Result<(u8, u64), E> { Ok((b'd', v.to_bits())) }
+}
+macro_rules! any_unit {
+    ($name:ident, $ty:ty, $code:expr, $size:expr, $o_iff:literal, $o_tag:literal, $o_val:literal, $o_adv:literal) => {
+        #[cfg(kani)]
+        #[kani::proof]
+        #[kani::stub(alloc::fmt::format, stub_format)]
+        #[kani::stub(DeserializerCommon::parse_padding, stub_parse_padding)]
+        #[kani::stub(<Signature as std::clone::Clone>::clone, stub_sig_clone)]
+        #[kani::stub(<str as std::string::ToString>::to_string, stub_str_to_string)]
+        #[kani::unwind(3)]
+        fn $name() {
+            let buf: [u8; 16] = kani::any();
+            let len: usize = kani::any();
+            kani::assume(len <= 16);
+            let bytes = &buf[..len];
+            let (mut de, big) = any_de(bytes, <$ty as Type>::SIGNATURE);
+            let pos0 = de.0.pos;
+            let p = spec_pad(de.0.ctxt.position() + pos0, $size);
+            let present = spec_zero_padding(bytes, pos0, p) && pos0 + p + $size <= len;
+            let r = serde::Deserializer::deserialize_any(&mut de, RecVisitor);
+            let raw: u64 = if present {
+                match $size { 1 => bytes[pos0 + p] as u64, 2 => spec_u16(&bytes[pos0 + p..pos0 + p + 2], big) as u64,
+                              4 => spec_u32(&bytes[pos0 + p..pos0 + p + 4], big) as u64, _ => spec_u64(&bytes[pos0 + p..pos0 + p + 8], big) }
+            } else { 0 };
+            let valid = present && ($code != b'b' || raw <= 1);
+            obl!($o_iff, r.is_ok() == valid);
+            if let Ok((tag, bits)) = &r {
+                obl!($o_tag, *tag == $code);
+                obl!($o_val, *bits == raw);
+                obl!($o_adv, de.0.pos == pos0 + p + $size);
+            }
+            kani::cover!(r.is_ok() && p > 0 || $size == 1, "cover.ok_padded");
+            kani::cover!(r.is_err(), "cover.err");
+            core::mem::forget(r);
+        }
+    };
+}
+// @unit C03.any.y props=C03,C04 kind=bounded bound=buffer<=16 tier=thorough fn=zvariant::de::deserialize_any,<&mut.zvariant::dbus::Deserializer.as.serde::Deserializer>::deserialize_any stubs=C03.parse_padding timeout=600
+#[cfg(not(verif_skip_c03_any_y__n16))]
+any_unit!(c03_any_y__n16, u8, b'y', 1, "C03.any.y.ok_iff_valid", "C03.any.y.visitor_gets_u8", "C03.any.y.value", "C03.any.y.consumed");
+// @unit C03.any.b props=C03,C04 kind=bounded bound=buffer<=16 fn=zvariant::de::deserialize_any stubs=C03.parse_padding timeout=600
+#[cfg(not(verif_skip_c03_any_b__n16))]
+any_unit!(c03_any_b__n16, bool, b'b', 4, "C03.any.b.ok_iff_valid", "C03.any.b.visitor_gets_bool", "C03.any.b.value", "C03.any.b.consumed");
+// @unit C03.any.n props=C03,C04 kind=bounded bound=buffer<=16 fn=zvariant::de::deserialize_any stubs=C03.parse_padding timeout=600
+#[cfg(not(verif_skip_c03_any_n__n16))]
+any_unit!(c03_any_n__n16, i16, b'n', 2, "C03.any.n.ok_iff_valid", "C03.any.n.visitor_gets_i16", "C03.any.n.value", "C03.any.n.consumed");
+// @unit C03.any.q props=C03,C04 kind=bounded bound=buffer<=16 tier=thorough fn=zvariant::de::deserialize_any stubs=C03.parse_padding timeout=600
+#[cfg(not(verif_skip_c03_any_q__n16))]
+any_unit!(c03_any_q__n16, u16, b'q', 2, "C03.any.q.ok_iff_valid", "C03.any.q.visitor_gets_u16", "C03.any.q.value", "C03.any.q.consumed");
+// @unit C03.any.i props=C03,C04 kind=bounded bound=buffer<=16 fn=zvariant::de::deserialize_any stubs=C03.parse_padding timeout=600
+#[cfg(not(verif_skip_c03_any_i__n16))]
+any_unit!(c03_any_i__n16, i32, b'i', 4, "C03.any.i.ok_iff_valid", "C03.any.i.visitor_gets_i32", "C03.any.i.value", "C03.any.i.consumed");
+// @unit C03.any.u props=C03,C04 kind=bounded bound=buffer<=16 tier=thorough fn=zvariant::de::deserialize_any stubs=C03.parse_padding timeout=600
+#[cfg(not(verif_skip_c03_any_u__n16))]
+any_unit!(c03_any_u__n16, u32, b'u', 4, "C03.any.u.ok_iff_valid", "C03.any.u.visitor_gets_u32", "C03.any.u.value", "C03.any.u.consumed");
+// @unit C03.any.x props=C03,C04 kind=bounded bound=buffer<=16 tier=thorough fn=zvariant::de::deserialize_any stubs=C03.parse_padding timeout=600
+#[cfg(not(verif_skip_c03_any_x__n16))]
+any_unit!(c03_any_x__n16, i64, b'x', 8, "C03.any.x.ok_iff_valid", "C03.any.x.visitor_gets_i64", "C03.any.x.value", "C03.any.x.consumed");
+// @unit C03.any.t props=C03,C04 kind=bounded bound=buffer<=16 fn=zvariant::de::deserialize_any stubs=C03.parse_padding timeout=600
+#[cfg(not(verif_skip_c03_any_t__n16))]
+any_unit!(c03_any_t__n16, u64, b't', 8, "C03.any.t.ok_iff_valid", "C03.any.t.visitor_gets_u64", "C03.any.t.value", "C03.any.t.consumed");
+// @unit C03.any.d props=C03,C04 kind=bounded bound=buffer<=16 tier=thorough fn=zvariant::de::deserialize_any stubs=C03.parse_padding timeout=600
+#[cfg(not(verif_skip_c03_any_d__n16))]
+any_unit!(c03_any_d__n16, f64, b'd', 8, "C03.any.d.ok_iff_valid", "C03.any.d.visitor_gets_f64", "C03.any.d.value", "C03.any.d.consumed");
+
 #[cfg(all(kani, test))]
 mod playback {
     use super::*;
